@@ -50,7 +50,7 @@ def is_vf_call(t):
     return t.op == "call" and t.args[0] is A("vfield")
 
 
-def run(chk, S: Session):
+def _run_own(chk, S: Session):
     chk.trust("func.jet(f, primals, series) / func.jvp(f, primals, tangents) differentiate f along the given series / tangents")
     r1 = chk.rule("R-C10-1", "explicit time is a differentiated input (unit series/tangent) at every Taylor-mode differentiation site", floor=10)
     r2 = chk.rule("R-C10-2", "routines reject jet-lifted ODEs / non-ODE inputs before use; pytree wrapper forwards t and re-ravels consistently", floor=10)
@@ -184,3 +184,11 @@ def order_typestate_rules(chk, S, r3):
                 r3.require(got == want, construct, f"returns D0..D{k + num - 1}",
                            f"returns the derivative orders {['?' if g is None else g for g in got]}; expected {want}" + (f" (first inexact value: {why})" if None in got and why else ""), JETEXP, cfg)
         chk.sample({"rule": "R-C10-3", "routine": rname, "grid": "k in 1..3, num in 1..6"})
+
+
+def run(chk, S: Session):
+    _run_own(chk, S)
+    from ..harness import borrow
+
+    rb = chk.rule("R-C10-B", "clause of this statement decided by a rule of C11 (the residual-based routine differentiates through jet_lift: time is a differentiated input there)", floor=6)
+    borrow(chk, S, rb, "C11", lambda r, c: r == "R-C11-2")
